@@ -281,7 +281,7 @@ theorem loop_rule (reinterp : Bool) (cfg : Cfg) (bg : Bg P B M) (g : Guards P B 
           simp only [Outcome.accepted.injEq] at hj
           subst hj
           exact ⟨hacc, by omega, by omega, ha⟩
-        · simp only [ha, if_false]
+        · simp only [ha]
           exact rec_ _ _ h1.1
       | true =>
         simp only [if_true]
@@ -302,10 +302,150 @@ theorem loop_rule (reinterp : Bool) (cfg : Cfg) (bg : Bg P B M) (g : Guards P B 
               simp only [Outcome.accepted.injEq] at hj
               subst hj
               exact ⟨h3.1, by omega, by omega, ha⟩
-            · simp only [ha, if_false]
+            · simp only [ha]
               rw [restoreGuess_ok]
               exact rec_ _ _ h3.2
-        · simp only [hal, if_false]
+        · simp only [hal]
           exact rec_ _ _ h1.1
+
+/-! ### consequences of `Sound` / `Total` for any entry state -/
+
+/-- whatever the entry state: after an interpolation that did not abort, a vertex that is located on this rank has
+    a fresh record (`REF_NOT_FOUND` and the two skip paths leave it unlocated) -/
+theorem interpolate_any {cfg : Cfg} (hl : Live cfg) {bg : Bg P B M} {D : P → Int → B → Prop} (hs : Sound bg D)
+    (s : NodeSt P B M) (hnf : (metricInterpolateNode cfg bg s).1 ≠ .failure) :
+    MetricAtPosition bg D (metricInterpolateNode cfg bg s).2 := by
+  by_cases hc : s.cell = EMPTY
+  · rw [interpolate_empty hl bg s hc]; exact metricAtPosition_of_empty hc
+  · by_cases hp : s.part = bg.rank
+    · rcases interpolate_local hl hs s ⟨hc, hp⟩ with ⟨_, hf⟩ | ⟨_, he⟩ | hst
+      · exact hf.weak
+      · rw [he]; exact metricAtPosition_of_empty rfl
+      · exact absurd hst hnf
+    · rw [interpolate_offpart hl bg s hc hp]; exact metricAtPosition_of_empty rfl
+
+/-- serial, complete fall-back: from a local guess a position that has a donor is never reported `REF_NOT_FOUND` -/
+theorem locateNode_total {bg : Bg P B M} {D : P → Int → B → Prop} (hs : Sound bg D) (ht : Total bg D)
+    (s : NodeSt P B M) (hl : Local bg s) (hd : ∃ c b, D s.xyz c b) : (locateNode bg s).1 ≠ .notFound := by
+  obtain ⟨hc, hp⟩ := hl
+  obtain ⟨c0, b0, hd⟩ := hd
+  unfold locateNode
+  have hr : ¬ (bg.rank ≠ s.part) := fun e => e hp.symm
+  simp only [hc, if_false, hr]
+  cases hw : bg.walk s.part s.cell s.xyz with
+  | abort => simp
+  | enclosing c p b =>
+    simp only
+    by_cases h1 : bg.rank ≠ p
+    · simp [h1]
+    · simp only [h1, if_false]
+      by_cases h2 : bg.valid c = true
+      · simp only [h2, Bool.not_true, Bool.false_eq_true, if_false]
+        intro h
+        rw [foundStatus_notFound] at h
+        simp only at h
+        subst h
+        rw [hs.valid_nonempty] at h2
+        cases h2
+      · simp [h2]
+  | lost =>
+    simp only [ht.serial, Bool.not_false, if_true]
+    obtain ⟨c', b', hq, hc'⟩ := ht.seq_complete _ _ _ hd
+    rw [hq]
+    simp only
+    intro h
+    rw [foundStatus_notFound] at h
+    exact hc' h
+
+theorem interpolate_total {cfg : Cfg} (hl : Live cfg) {bg : Bg P B M} {D : P → Int → B → Prop} (hs : Sound bg D)
+    (ht : Total bg D) (s : NodeSt P B M) (hloc : Local bg s) (hd : ∃ c b, D s.xyz c b) :
+    (metricInterpolateNode cfg bg s).1 ≠ .notFound := by
+  have h := locateNode_total hs ht s hloc hd
+  unfold metricInterpolateNode
+  simp only [hl.1, hl.2, Bool.not_true, Bool.false_eq_true, if_false]
+  rcases hr : locateNode bg s with ⟨st, s1⟩
+  rw [hr] at h
+  cases st with
+  | notFound => exact absurd rfl h
+  | failure => simp
+  | ok =>
+    simp only
+    split
+    · simp
+    · split <;> simp
+
+/-! ### the two degenerate loop shapes -/
+
+/-- when every interpolation is the identity (no background; or an unlocated vertex of a live background) the loop
+    only ever changes the coordinates -/
+theorem loop_const (reinterp : Bool) (cfg : Cfg) (bg : Bg P B M) (g : Guards P B M) (trial : Nat → P) (orig : P)
+    (guess : Int) (s0 : NodeSt P B M)
+    (hI : ∀ x, metricInterpolateNode cfg bg { s0 with xyz := x } = (.ok, { s0 with xyz := x }))
+    (n k : Nat) (x0 : P) (cs : List (Status × NodeSt P B M)) :
+    (∀ j, (loop reinterp cfg bg g trial orig guess n k { s0 with xyz := x0 } cs).outcome = .accepted j →
+      (loop reinterp cfg bg g trial orig guess n k { s0 with xyz := x0 } cs).st = { s0 with xyz := trial j } ∧ j < k + n) ∧
+    ((loop reinterp cfg bg g trial orig guess n k { s0 with xyz := x0 } cs).outcome = .rolledBack →
+      (loop reinterp cfg bg g trial orig guess n k { s0 with xyz := x0 } cs).st = { s0 with xyz := orig }) := by
+  have key := loop_rule reinterp cfg bg g trial orig guess (fun s => ∃ x, s = { s0 with xyz := x })
+    (fun x s => s = { s0 with xyz := x }) (fun s => s = { s0 with xyz := orig })
+    (by
+      rintro s x ⟨x', rfl⟩ _
+      simp only
+      rw [hI x]
+      simp only [restoreGuess_ok]
+      exact ⟨⟨x, rfl⟩, fun _ => trivial⟩)
+    (by
+      rintro x s2 rfl _
+      rw [hI x]
+      exact ⟨rfl, x, rfl⟩)
+    (by
+      rintro s ⟨x', rfl⟩ _
+      simp only
+      rw [hI orig])
+    n k { s0 with xyz := x0 } cs ⟨x0, rfl⟩
+  refine ⟨fun j hj => ?_, key.2⟩
+  obtain ⟨a, _, c, _⟩ := key.1 j hj
+  exact ⟨a, c⟩
+
+/-- when every interpolation just forgets the cell (`REF_SUCCESS`): background not interpolated continuously, or
+    the donor of the vertex lives on another part -/
+theorem loop_forget (reinterp : Bool) (cfg : Cfg) (bg : Bg P B M) (g : Guards P B M) (trial : Nat → P) (orig : P)
+    (guess : Int) (s0 : NodeSt P B M)
+    (hI1 : ∀ x, metricInterpolateNode cfg bg { s0 with xyz := x } = (.ok, { s0 with xyz := x, cell := EMPTY }))
+    (hI2 : ∀ x, metricInterpolateNode cfg bg { s0 with xyz := x, cell := EMPTY } =
+      (.ok, { s0 with xyz := x, cell := EMPTY }))
+    (n k : Nat) (x0 : P) (cs : List (Status × NodeSt P B M)) :
+    (∀ j, (loop reinterp cfg bg g trial orig guess n k { s0 with xyz := x0 } cs).outcome = .accepted j →
+      (loop reinterp cfg bg g trial orig guess n k { s0 with xyz := x0 } cs).st =
+        { s0 with xyz := trial j, cell := EMPTY } ∧ j < k + n) ∧
+    ((loop reinterp cfg bg g trial orig guess n k { s0 with xyz := x0 } cs).outcome = .rolledBack →
+      (loop reinterp cfg bg g trial orig guess n k { s0 with xyz := x0 } cs).st = { s0 with xyz := orig, cell := EMPTY }) := by
+  have key := loop_rule reinterp cfg bg g trial orig guess
+    (fun s => ∃ x, s = { s0 with xyz := x } ∨ s = { s0 with xyz := x, cell := EMPTY })
+    (fun x s => s = { s0 with xyz := x, cell := EMPTY }) (fun s => s = { s0 with xyz := orig, cell := EMPTY })
+    (by
+      rintro s x ⟨x', rfl | rfl⟩ _
+      · simp only
+        rw [hI1 x]
+        simp only [restoreGuess_ok]
+        exact ⟨⟨x, Or.inr rfl⟩, fun _ => trivial⟩
+      · simp only
+        rw [hI2 x]
+        simp only [restoreGuess_ok]
+        exact ⟨⟨x, Or.inr rfl⟩, fun _ => trivial⟩)
+    (by
+      rintro x s2 rfl _
+      rw [hI2 x]
+      exact ⟨rfl, x, Or.inr rfl⟩)
+    (by
+      rintro s ⟨x', rfl | rfl⟩ _
+      · simp only
+        rw [hI1 orig]
+      · simp only
+        rw [hI2 orig])
+    n k { s0 with xyz := x0 } cs ⟨x0, Or.inl rfl⟩
+  refine ⟨fun j hj => ?_, key.2⟩
+  obtain ⟨a, _, c, _⟩ := key.1 j hj
+  exact ⟨a, c⟩
 
 end Refine.Lemmas.SmoothInterp
